@@ -63,11 +63,14 @@ func (r *SecureRealm[A, Pub]) Drop(s *SecureSwarm[A, Pub]) {
 		panic("drop called with Swarm from a different Realm")
 	}
 	r.mu.Lock()
-	defer r.mu.Unlock()
 	s2, exists := r.swarms[s.local]
+	r.mu.Unlock()
 	if !exists || s2 != s {
 		panic("swarm is already closed")
 	}
+	// The realm lock must not be held here: Queue.Close waits for running Receive
+	// callbacks to hand back their buffers, and a callback that calls Tell or Ask
+	// needs the realm's read lock.
 	s.tells.Close()
 	s.asks.Close()
 }
